@@ -374,6 +374,15 @@ def transfer_col_references(table, ref_source):
             f"`{ref_source._ast.short_name()}`"
         )
 
+    for uid in table._cache.partition_by:
+        if uid not in table._cache.uuid_to_name:
+            raise ValueError(
+                f"the grouping column `{table._cache.cols[uid].ast_repr()}` of the table "
+                f"`{table._ast.short_name()}` is not selected any more (it was dropped, "
+                "de-selected or overwritten after `group_by`), so it cannot be mapped "
+                "to a column of the reference source table"
+            )
+
     new = copy.copy(table)
     new._ast = Alias(
         new._ast,
